@@ -1,5 +1,7 @@
 //! C11 — project sees the current value of projected variables in every branch.
 use super::common::*;
+use super::surface::*;
+use crate::emit::Naming;
 use crate::ast::*;
 use crate::build::take_proj_log;
 use crate::canon::*;
@@ -62,6 +64,45 @@ fn body(rng: &mut Rng, depth: usize) -> Vec<G> {
     b
 }
 
+/// `|q0, q1| { |x, y| { prefix, project |x| (or |x, y|) { body } } }`. `last`: nothing follows the
+/// project goal in its scope (needed in surface syntax, where the body closure takes the variables
+/// it mentions by move).
+fn project_program(rng: &mut Rng, last: bool) -> (Program, bool, bool) {
+    let (pre, infinite) = prefix(rng);
+    let pv = if rng.chance(1, 3) { vec![X, Y] } else { vec![X] };
+    let b = body(rng, 1);
+    let nested = b.iter().any(|g| g.has_kind("project"));
+    let mut inner = pre.clone();
+    inner.push(G::Project(pv, b));
+    if !last && rng.chance(1, 4) {
+        inner.push(G::Eq(v(Q1), v(Q1)));
+    }
+    (Program::new(vec![Q0, Q1], vec![G::Fresh(vec![X, Y], inner)]), infinite, nested)
+}
+
+impl C11 {
+    /// The same programs written in surface syntax and compiled (the macro expansion of `project`
+    /// end to end); answers against the reference (project = walk*) and the API-built twin.
+    fn surface_cases(tier: Tier, seed: u64) -> Vec<SurfCase> {
+        let n = if tier == Tier::Thorough { 2500 } else { 160 };
+        (0..n)
+            .map(|i| {
+                let mut rng = Rng::for_case(seed, "c11-surface", i as u64);
+                // a project nested in a project body does not compile in surface syntax (the inner
+                // `move` closure would move variables out of the outer `Fn` closure, E0507); nesting
+                // is covered by the API lane
+                let (prog, infinite) = loop {
+                    let (prog, infinite, nested) = project_program(&mut rng, true);
+                    if !nested {
+                        break (prog, infinite);
+                    }
+                };
+                SurfCase { prog, naming: if i % 2 == 0 { Naming::Clash } else { Naming::Distinct }, twin_of: None, infinite, ordered: false, tag: "project" }
+            })
+            .collect()
+    }
+}
+
 impl Check for C11 {
     fn id(&self) -> &'static str {
         "C11"
@@ -70,7 +111,7 @@ impl Check for C11 {
         vec![GenSpec { name: "project", quick: 6000, thorough: 300_000 }]
     }
     fn rule(&self) -> &'static str {
-        "Programs `|x, y| { prefix, project |x| (or |x, y|) { body } }` with two query variables. Prefixes make 1..n states reach the SAME project goal object: member over 2-4 values, conde of bindings (incl. x bound to a list holding y), x bound to a shared structured term ([y, 10], Pair(y, 1), [0 | y]) whose inner variable is bound differently per branch, two members (product of states), x unbound, and an infinite loop prefix (first 8 answers). Bodies of 1-4 goals use the projected value (q == x, q == [x | x], q != x, conde, nested project on y), half of them behind a multi-answer goal so that the rest of the body is suspended and resumed after other states have reached the project goal. Monitors: M-proj, built into every project body at its start and end: walk*(projected term) == walk*(original variable) in the state that runs the body; the answers equal the reference's (project = walk*) as multisets (soundness of a prefix for the infinite lane); the same Query value run twice gives the same answers; no panic. Distinct = distinct program text; non-trivial = the project goal was reached by at least 2 states."
+        "Programs `|x, y| { prefix, project |x| (or |x, y|) { body } }` with two query variables. Prefixes make 1..n states reach the SAME project goal object: member over 2-4 values, conde of bindings (incl. x bound to a list holding y), x bound to a shared structured term ([y, 10], Pair(y, 1), [0 | y]) whose inner variable is bound differently per branch, two members (product of states), x unbound, and an infinite loop prefix (first 8 answers). Bodies of 1-4 goals use the projected value (q == x, q == [x | x], q != x, conde, nested project on y), half of them behind a multi-answer goal so that the rest of the body is suspended and resumed after other states have reached the project goal. Monitors: M-proj, built into every project body at its start and end: walk*(projected term) == walk*(original variable) in the state that runs the body; the answers equal the reference's (project = walk*) as multisets (soundness of a prefix for the infinite lane); the same Query value run twice gives the same answers; no panic. A compiled lane writes the same programs (without nested project) in surface syntax, compiles them against the current tree and compares the answers with the reference and with the API-built twin, so that the macro expansion of `project` is observed end to end. Distinct = distinct program text; non-trivial = the project goal was reached by at least 2 states."
     }
     fn assumptions(&self) -> Vec<String> {
         vec!["M-proj lives in the body that the harness hands to the real `project |..| { .. }` macro as a Rust-expression clause (1-3 projected variables)".into()]
@@ -82,25 +123,23 @@ impl Check for C11 {
         }
     }
     fn required_counters(&self) -> Vec<&'static str> {
-        vec!["projection_observations", "programs_reached_by_3plus_states", "reference_compared", "second_run_compared", "infinite_prefix_programs", "nested_project_programs", "miri_cases_run", "miri_direct_projection_checks"]
+        vec!["programs_compiled_and_run", "api_twin_compared", "projection_observations", "programs_reached_by_3plus_states", "reference_compared", "second_run_compared", "infinite_prefix_programs", "nested_project_programs", "miri_cases_run", "miri_direct_projection_checks"]
     }
     fn miri_lane(&self, tier: Tier) -> Option<(Vec<(&'static str, u64, u64)>, bool)> {
         // the unsafe projection write driven directly + project programs, interpreted by Miri
         Some((vec![("project", 0, if tier == Tier::Thorough { 48 } else { 6 })], true))
     }
-    fn run_case(&self, gen: &str, seed: u64, index: u64, _tier: Tier) -> CaseOut {
+    fn run_batch(&self, tier: Tier, seed: u64) -> Option<Merged> {
+        Some(run_surface_batch("C11", Self::surface_cases(tier, seed), vec![], seed, true))
+    }
+    fn run_case(&self, gen: &str, seed: u64, index: u64, tier: Tier) -> CaseOut {
+        if gen == "surface" {
+            return replay_case("C11", Self::surface_cases(tier, seed), index as usize, seed, true);
+        }
+        let _tier = tier;
         let mut out = CaseOut::default();
         let mut rng = Rng::for_case(seed, gen, index);
-        let (pre, infinite) = prefix(&mut rng);
-        let pv = if rng.chance(1, 3) { vec![X, Y] } else { vec![X] };
-        let b = body(&mut rng, 1);
-        let nested = b.iter().any(|g| g.has_kind("project"));
-        let mut inner = pre.clone();
-        inner.push(G::Project(pv, b));
-        if rng.chance(1, 4) {
-            inner.push(G::Eq(v(Q1), v(Q1)));
-        }
-        let prog = Program::new(vec![Q0, Q1], vec![G::Fresh(vec![X, Y], inner)]);
+        let (prog, infinite, nested) = project_program(&mut rng, false);
         let n = if infinite { 8 } else { 5000 };
         let cfg = RunCfg { max_answers: n, step_budget: 1_000_000, extra_next: 1, display: true };
         let _ = take_proj_log();
